@@ -669,18 +669,28 @@ func PrintAllTypes() {
 func PrintTargetClassExtends() {
 	className := getTargetClass()
 
-	for classNode, parents := range base.ClassInheritanceMap {
+	// several frames can hold a class of that name: pick the same one on every run
+	var frames []string
+	for classNode := range base.ClassInheritanceMap {
 		if classNode.Class == className {
-			for _, parent := range parents {
-				switch parent.Class {
-				case "":
-					fmt.Println("Object")
-				default:
-					fmt.Println(parent.Class)
-				}
-			}
+			frames = append(frames, classNode.Frame)
+		}
+	}
 
-			return
+	if len(frames) == 0 {
+		return
+	}
+
+	sort.Strings(frames)
+
+	classNode := base.ClassNode{Frame: frames[0], Class: className}
+
+	for _, parent := range base.ClassInheritanceMap[classNode] {
+		switch parent.Class {
+		case "":
+			fmt.Println("Object")
+		default:
+			fmt.Println(parent.Class)
 		}
 	}
 }
